@@ -7,6 +7,7 @@
    "Same IP" for the peer store = same raw IP bytes (DESIGN.md Appendix B): the 4-byte and the
    v4-mapped form of one address are two keys. *)
 From Dht Require Import Base Int160 Msg Server ServerDefs ServerC10 ServerC11 ServerHook Sha1.
+From Dht Require Import RunApi ApiProofs.
 From DhtGen Require Import Params.
 From Coq Require Import Permutation.
 Local Open Scope Z_scope.
@@ -213,6 +214,34 @@ Section C11.
   Proof. exact (step_advance_zero_noop Store w_put w_get sha1 id_secure cfg s ch). Qed.
 End C11.
 
+(* ================= bursts of first announces (engine `api`) =================
+   The server hands every accepted announce to InMemory.AddPeer on its own goroutine; announces that
+   arrive back to back run AddPeer concurrently and the store's lock serialises them in some order.
+   For a burst with pairwise distinct (infohash, raw ip) keys the store after the burst does not
+   depend on that order, from any earlier store; every announcer of a burst of first announces comes
+   back from GetPeers and nothing else does. The runner folds add_peer in the order listed and
+   compares sorted listings with what GetPeers / get_peers returned at rest. *)
+Theorem C11_burst_order_irrelevant l l' ps q :
+  Permutation l l' -> distinct_keys l ->
+  (In q (fold_left add_peer l ps) <-> In q (fold_left add_peer l' ps)).
+Proof. exact (ra_fold_perm l l' ps q). Qed.
+
+Theorem C11_burst_listing_order_irrelevant ih l l' a :
+  Permutation l l' -> distinct_keys l -> (In a (ra_store_get ih l) <-> In a (ra_store_get ih l')).
+Proof. exact (ra_store_get_perm ih l l' a). Qed.
+
+Theorem C11_burst_complete anns p :
+  distinct_keys anns -> In p anns -> In (mkNA (p_ip p) (p_port p)) (ra_store_get (p_ih p) anns).
+Proof. exact (ra_burst_complete anns p). Qed.
+
+Theorem C11_burst_only_announced ih anns a :
+  In a (ra_store_get ih anns) -> exists p, In p anns /\ p_ih p = ih /\ a = mkNA (p_ip p) (p_port p).
+Proof. exact (ra_store_get_only ih anns a). Qed.
+
+Theorem C11_burst_one_listing_per_host anns p q :
+  In p (ra_peers anns) -> In q (ra_peers anns) -> same_key p q -> p = q.
+Proof. exact (ra_store_one_per_host anns p q). Qed.
+
 (* ================= non-vacuity: concrete histories, real SHA-1 ================= *)
 Definition ex_cfg : config :=
   mkCfg 1 false true true true (fun _ => true) false ["s"; "e"; "c"; "r"; "e"; "t"]%byte.
@@ -340,3 +369,8 @@ Print Assumptions C11_token.
 Print Assumptions C11_ex_roundtrip.
 Print Assumptions C11_ex_replaced.
 Print Assumptions C11_ex_adjacent.
+Print Assumptions C11_burst_order_irrelevant.
+Print Assumptions C11_burst_listing_order_irrelevant.
+Print Assumptions C11_burst_complete.
+Print Assumptions C11_burst_only_announced.
+Print Assumptions C11_burst_one_listing_per_host.
